@@ -792,8 +792,65 @@ def run_c08(ctx) -> Corr:
                         corr.violate("the release touched another node's buffered commands", case)
                         break
     account(corr, hists, impl, lambda h, op, before, o: any(not w[1] for w in o["writes"]))
+    _failing_wake_across_sessions(corr)
     corr.exhaustive = ctx.tier == "thorough"
     return corr
+
+
+def _failing_wake_across_sessions(corr: Corr) -> None:
+    """The failure is reported to the caller of listen — who may let it leave the gateway context and enter it again
+    (a reconnect).  Commands not yet written must still be written at a later wake, nothing twice."""
+    import asyncio
+
+    from aiomysensors import exceptions as exc
+    from aiomysensors.model.message import Message
+
+    async def go():
+        for v in V20:
+            wake = f"1;255;3;0;{32 if v == '2.2' else 22};5\n"
+            for n_cmds in (2, 3):
+                for fail_at in range(n_cmds):
+                    for escape in (True, False):
+                        h = Hist(v, True, [("node", 1, 17, "2.0", "", "", 0, 0, False, True)])
+                        g, tr = gw.build_gateway(h)
+                        sent = []
+                        async with g:
+                            for i in range(n_cmds):
+                                m = Message(1, i, 1, 0, 2, f"v{i}")
+                                await g.send(m)
+                                sent.append(f"1;{i};1;0;2;v{i}\n")
+                        tr.attempts = []
+                        tr.lines, tr.faults = [wake], [False] * fail_at + [True]
+                        reported = None
+                        try:
+                            async with g:
+                                if escape:
+                                    await anext(g.listen())
+                                else:
+                                    try:
+                                        await anext(g.listen())
+                                    except exc.TransportError as e:
+                                        reported = e
+                        except exc.TransportError as e:
+                            reported = e
+                        for _ in range(2):
+                            tr.lines, tr.faults = [wake], []
+                            async with g:
+                                try:
+                                    await anext(g.listen())
+                                except exc.AIOMySensorsError:
+                                    pass
+                        ok_writes = [w[0] for w in tr.attempts if w[1] and w[0].split(";")[2] == "1"]
+                        case = {"version": v, "commands": sent, "failing_write": fail_at, "error_left_the_context": escape,
+                                "writes": [list(w) for w in tr.attempts]}
+                        if reported is None:
+                            corr.violate("a failing write during the release was not reported to the caller of listen", case)
+                        if sorted(ok_writes) != sorted(sent):
+                            corr.violate("after a failing release (and leaving / re-entering the gateway context) the buffered "
+                                         "commands were not each written exactly once", case)
+                        corr.case(("sessions", v, n_cmds, fail_at, escape), True, None)
+                        corr.count("failing-wake-across-sessions")
+    asyncio.run(go())
 
 
 # ---- C10 --------------------------------------------------------------------------------------
@@ -855,7 +912,66 @@ def run_c10(ctx) -> Corr:
                 corr.violate("a presentation request was written although nothing was missing", case)
                 break
     account(corr, hists, impl, lambda h, op, before, o: "missing" in o["out"])
+    _cancelled_request(corr)
     return corr
+
+
+def _cancelled_request(corr: Corr) -> None:
+    """'A request whose write failed does not count as sent' — also when the write did not fail with an exception of the
+    transport but was aborted: the task waiting in listen() is cancelled while the request is being written."""
+    import asyncio
+
+    from aiomysensors import exceptions as exc
+
+    class Stalling(gw.FaultTransport):
+        def __init__(self) -> None:
+            super().__init__()
+            self.stall = False
+            self.entered = asyncio.Event()
+
+        async def write(self, decoded_message: str) -> None:
+            if self.stall:
+                self.entered.set()
+                await asyncio.Event().wait()          # never completes: the caller will be cancelled here
+            await super().write(decoded_message)
+
+    async def go():
+        for v in V20:
+            for first in ("1;0;1;0;2;5", "1;255;3;0;0;50", "1;1;2;0;2;"):
+                tr = Stalling()
+                from aiomysensors.gateway import Config, Gateway
+                g = Gateway(tr, Config())
+                g.protocol_version = v
+                tr.lines = [first]
+                tr.stall = True
+                task = asyncio.ensure_future(anext(g.listen()))
+                try:
+                    await asyncio.wait_for(tr.entered.wait(), 2)
+                except TimeoutError:
+                    corr.notes.append("cancelled-request scenario: the request write was never started")
+                    task.cancel()
+                    continue
+                task.cancel()
+                try:
+                    await task
+                except (asyncio.CancelledError, exc.AIOMySensorsError):
+                    pass
+                tr.stall = False
+                tr.attempts = []
+                for line in ("1;0;1;0;2;6", "1;0;1;0;2;7", "1;255;3;0;11;S"):
+                    tr.lines = [line]
+                    try:
+                        await anext(g.listen())
+                    except exc.AIOMySensorsError:
+                        pass
+                reqs = [w for w in tr.attempts if w[0] == "1;255;3;0;19;\n"]
+                case = {"version": v, "first_message": first, "writes_after_the_cancelled_request": [list(w) for w in tr.attempts]}
+                if len(reqs) != 1:
+                    corr.violate("a presentation request whose write was aborted (listener cancelled) counted as sent, or was "
+                                 "requested more than once afterwards", case)
+                corr.case(("cancelled-request", v, first), True, None)
+                corr.count("cancelled-request")
+    asyncio.run(go())
 
 
 # ---- C11 --------------------------------------------------------------------------------------
